@@ -1450,6 +1450,12 @@ func (c *Conn) readLine() (string, error) {
 	}
 
 	line, err := c.text.ReadLine()
+	if limit := c.server.MaxLineLength; err == nil && limit > 0 && len(line)+1 > limit {
+		// The limiter below the buffered reader does not see what was
+		// buffered while the limit was lifted for a BDAT chunk: a line
+		// that follows a chunk in the same read is measured here.
+		return "", ErrTooLongLine
+	}
 	if err == nil && c.lineLimitReader.cutShort() && c.text.R.Buffered() == 0 {
 		// This is not a line but the beginning of a line that got too
 		// long: the buffered reader hands out what it has when its
